@@ -140,8 +140,10 @@ Definition validate_simple (x : simple) : option simple :=
   let x' := norm_simple x in if valid_simple x' then Some x' else None.
 
 Definition wf_simple (x : simple) : Prop := validate_simple x = Some x.
+Definition by_ok (b : option Z) : bool := match b with None => true | Some z => (0 <=? z)%Z end.
+(* a tensor term's own `by` is validated by the SplineTerm constructor it inherits: an int >= 0 or None *)
 Definition wf_term (t : term) : Prop :=
-  match t with TI _ => True | TS x => wf_simple x | TTe ms _ _ => Forall wf_simple ms end.
+  match t with TI _ => True | TS x => wf_simple x | TTe ms b _ => Forall wf_simple ms /\ by_ok b = true end.
 
 (* ------------------------------------------------------------------ build_from_info *)
 Definition vstr (v : value) : option string := match v with VStr s => Some s | _ => None end.
@@ -184,9 +186,10 @@ Definition build_from_info (i : value) : option term :=
   if String.eqb ty "intercept_term" then
     if negb (List.length kvs =? 2)%nat then None else vb <- (v <- vlookup "verbose" kvs ;; vbool v) ;; Some (TI vb)
   else if String.eqb ty "tensor_term" then
-    (* TensorTerm.build_from_info: returns cls applied to the rebuilt marginals only -- `by` and `verbose` of the dictionary are not passed on *)
+    (* TensorTerm.build_from_info: cls applied to the rebuilt marginals and by=info.get('by'); `verbose` is not passed on *)
     ts <- (v <- vlookup "terms" kvs ;; vlist v) ;; ms <- omap build_simple ts ;;
-    if (List.length ms <? 2)%nat then None else Some (TTe ms None false)
+    b <- (match vlookup "by" kvs with Some v => oz_of_v v | None => Some None end) ;;
+    if (List.length ms <? 2)%nat then None else if by_ok b then Some (TTe ms b false) else None
   else x <- build_simple i ;; Some (TS x).
 
 (* ------------------------------------------------------------------ compile (data-dependent state) *)
@@ -231,8 +234,7 @@ Definition roundtrip_guard (t : term) : bool :=
   match t with
   | TI _ => true
   | TS x => no_knots_simple x && hidden_default_simple x
-  | TTe ms b _ => forallb (fun x => no_knots_simple x && hidden_default_simple x) ms && match b with None => true | _ => false end
-                  && (2 <=? List.length ms)%nat
+  | TTe ms _ _ => forallb (fun x => no_knots_simple x && hidden_default_simple x) ms && (2 <=? List.length ms)%nat
   end.
 
 (* ------------------------------------------------------------------ TermList construction *)
